@@ -37,11 +37,12 @@ func main() {
 	}
 	r := evidence.New("C02", "fault_enumeration")
 	r.Rule("phase single: case = seeded DAG ≤ 10 nodes × pairing × API ∈ {Copy, CopyGraph, ExtendedCopyGraph} × Concurrency ∈ {1,3}; a fault-free run lists the reached fault points (op ∈ {src.Fetch, src.Read, src.ReadMid, src.Resolve, src.FetchReference, src.Predecessors, dst.Exists, dst.Push.before/.after, dst.PushReference.before/.after, dst.Tag, dst.Mount, cb.PreCopy/PostCopy/OnCopySkipped/OnMounted/MountFrom}, node, ordinal); every reached point is faulted with an error, with a cancellation reported by the operation and with a cancellation after which the operation still answers normally, plus a call with an already cancelled context, each on fresh stores (exhaustive per case); " +
-		"phase multi: 1–3 random simultaneous faults on DAGs ≤ 40 nodes with seeded latencies. Each faulted run is one evaluation; distinct = hash(DAG shape, pairing, API, concurrency, fault point class, kind); non-trivial = the fault was actually hit and the graph has ≥ 3 nodes")
+		"phase multi: 1–3 random simultaneous faults on DAGs ≤ 40 nodes with seeded latencies; phase diamond: an error on a node shared by two parents while a sibling under its owner is slow (a failed node must not release its waiters). Each faulted run is one evaluation; distinct = hash(DAG shape, pairing, API, concurrency, fault point class, kind); non-trivial = the fault was actually hit and the graph has ≥ 3 nodes")
 	r.Assume("a hang is declared only on a logical proof: no return, progress counter unchanged, no storage operation in flight, every library goroutine parked; the wall-clock watchdog alone is inconclusive")
 	r.Assume("every fault point of the small cases is enumerated; interleavings under Concurrency 3 are sampled")
 	worker.Run(r, worker.Opts{Phase: "single", Total: r.N(30, 500), Batch: 2, Timeout: 20 * time.Minute})
-	worker.Run(r, worker.Opts{Phase: "multi", Total: r.N(300, 6000), Batch: 25, Timeout: 20 * time.Minute})
+	worker.Run(r, worker.Opts{Phase: "multi", Total: r.N(1500, 15000), Batch: 50, Timeout: 20 * time.Minute})
+	worker.Run(r, worker.Opts{Phase: "diamond", Total: r.N(400, 5000), Batch: 50, Timeout: 20 * time.Minute})
 	if bin := os.Getenv("VERIF_RACE_BIN"); bin != "" {
 		raceDir, _ := os.MkdirTemp("", "verif-c02-race-")
 		r.Cleanup(func() { os.RemoveAll(raceDir) })
@@ -60,15 +61,29 @@ func genOpts(phase string) copymon.GenOpts {
 		o.MaxNodes = 10
 	} else {
 		o.MaxNodes = 40
+		o.MaxDelay = 2500 * time.Microsecond // slow siblings keep a failure from propagating at once
 	}
 	return o
 }
 
 func makeCase(phase string, i int) *copymon.Case {
 	rng := evidence.RandFor(evidence.Seed(), "c02-"+phase, i)
-	c := copymon.GenCase(rng, genOpts(phase))
+	gp := phase
+	if phase == "diamond" {
+		gp = "multi"
+	}
+	c := copymon.GenCase(rng, genOpts(gp))
 	if c.API == "ExtendedCopyGraph" && c.SrcKind == "remote" {
-		c.SrcKind = "memory" // a registry exposes subject links only; the full relation is C03's subject
+		if c.G.Nodes[c.Root].Kind.IsManifestKind() {
+			// a registry exposes subject links only; exercise the referrers listing (also through a filter)
+			c.SubjectOnly = true
+			c.FilterAll = i%2 == 0
+			if c.Profile != nil {
+				c.Profile.DigestHeader = true
+			}
+		} else {
+			c.SrcKind = "memory"
+		}
 	}
 	if phase == "single" {
 		c.Conc = []int{1, 3}[i%2]
@@ -90,12 +105,17 @@ type faultSpec struct {
 
 // one faulted execution with all monitors; appends verdicts to res.
 func execute(ctx context.Context, res *worker.Result, c *copymon.Case, faults []faultSpec, tag string) (restart bool) {
+	return executeSlow(ctx, res, c, faults, tag, nil)
+}
+
+func executeSlow(ctx context.Context, res *worker.Result, c *copymon.Case, faults []faultSpec, tag string, slow map[int]time.Duration) (restart bool) {
 	e, err := c.Setup(ctx)
 	if err != nil {
 		res.Violate("harness:setup", err.Error(), c.Describe())
 		return false
 	}
 	defer e.Close()
+	e.Mon.SlowNode = slow
 	cctx, cancel := context.WithCancel(ctx)
 	defer cancel()
 	e.Mon.Cancel = cancel
@@ -245,6 +265,9 @@ func runCase(phase string, i int) worker.Result {
 	}
 	c := makeCase(ph, i)
 	res.Evals = 0
+	if ph == "diamond" {
+		return runDiamond(ctx, i)
+	}
 	if ph == "single" {
 		// count run: which points does the fault-free execution reach?
 		e, err := c.Setup(ctx)
@@ -322,6 +345,17 @@ func runCase(phase string, i int) worker.Result {
 	for j := 0; j < k; j++ {
 		op := ops[rng.IntN(len(ops))]
 		n := nodes[rng.IntN(len(nodes))]
+		if c.API == "ExtendedCopyGraph" && rng.IntN(2) == 0 {
+			// the upward walk: fault the predecessor listing of a node that is walked
+			op = "src.Predecessors"
+			var anc []int
+			if c.SubjectOnly {
+				anc = copymon.ReferrerAncestors(c.G, c.Root)
+			} else {
+				anc = copymon.Ancestors(c.G, c.Root)
+			}
+			n = anc[rng.IntN(len(anc))]
+		}
 		kind := []string{"error", "error", "cancel", "cancel-silent"}[rng.IntN(4)]
 		faults = append(faults, faultSpec{fmt.Sprintf("%s:%d#0", op, n), kind})
 	}
@@ -348,4 +382,65 @@ func appendObs(m map[string][]string, k, v string) map[string][]string {
 	}
 	m[k] = append(m[k], v)
 	return m
+}
+
+// runDiamond aims at the shape behind "a failed node must not release the
+// parents that wait for it": a node A shared by two parents fails while a slow
+// sibling B under A's owner keeps the failure from propagating at once.
+func runDiamond(ctx context.Context, i int) worker.Result {
+	var res worker.Result
+	c := makeCase("diamond", i)
+	c.Conc = []int{3, 4, 8}[i%3]
+	c.Prepop = nil
+	c.PreTag = -1
+	rng := evidence.RandFor(evidence.Seed(), "c02-diamond-faults", i)
+	g := c.G
+	nodes := g.Reach(c.Root)
+	if c.API == "ExtendedCopyGraph" {
+		nodes = c.ExpectedSet()
+	}
+	in := map[int]bool{}
+	for _, n := range nodes {
+		in[n] = true
+	}
+	type cand struct{ a, p, b int }
+	var cands []cand
+	for _, a := range nodes {
+		var parents []int
+		for _, p := range g.Preds(a) {
+			if in[p] {
+				parents = append(parents, p)
+			}
+		}
+		if len(parents) < 2 {
+			continue
+		}
+		for _, p := range parents {
+			for _, b := range g.SuccSet(p) {
+				if b != a {
+					cands = append(cands, cand{a, p, b})
+				}
+			}
+		}
+	}
+	res.Evals = 1
+	if len(cands) == 0 {
+		res.Count("diamond_cases_without_shared_node", 1)
+		res.Key = "noshared|" + c.Key()
+		return res
+	}
+	pick := cands[rng.IntN(len(cands))]
+	op := []string{"dst.Push.before", "src.Fetch", "cb.PreCopy", "dst.Exists", "src.ReadMid"}[rng.IntN(5)]
+	faults := []faultSpec{{fmt.Sprintf("%s:%d#0", op, pick.a), "error"}}
+	slow := map[int]time.Duration{pick.b: time.Duration(5+rng.IntN(20)) * time.Millisecond}
+	res.Restart = executeSlow(ctx, &res, c, faults, "diamond", slow)
+	res.Count("diamond_cases", 1)
+	res.Key = fmt.Sprintf("%s|%s>%s|%s|c%d|diamond:%s", g.Shape(c.Root), c.SrcKind, c.DstKind, c.API, c.Conc, op)
+	res.NT = res.Cnt["faults_hit"] > 0
+	if i%97 == 0 {
+		d := c.Describe()
+		d["faults"], d["slow_node"], d["shared_node"], d["owner_parent"] = faults, pick.b, pick.a, pick.p
+		res.Sample = d
+	}
+	return res
 }
